@@ -84,6 +84,8 @@ def generate(outdir, seed, npools, nversions):
     types, meta = [], []
     for pi, pool in enumerate(pools):
         hk = rng.choice([("hash", rng.choice([0, 5, 127, 128, 1 << 40])), ("ns", "verif.pool%d" % pi)])
+        if pi == 1:
+            hk = ("hash", 0)          # one pool always declares hash 0 (NOP_TABLE without a namespace): a wire hash other than 0 must still be rejected
         versions = walk_versions(rng, pool, nversions, full_start=(pi == 0))      # the first version of the first pool holds every candidate entry
         for vi, ver in enumerate(versions):
             ents = [(pool[e]["alts"][a], pool[e]["id"], act) for (e, a, act) in ver]
